@@ -31,7 +31,7 @@ PROPS = {
     "C05": dict(
         module="SeliumModel.Props.C05",
         suites=["wire"],
-        fn_tie=dict(module="SeliumModel.Props.C05Gen", gen="CodecFn"),
+        fn_tie=[dict(module="SeliumModel.Props.C05Gen", gen="CodecFn"), dict(module="SeliumModel.Props.C06Gen", gen="BatchFn")],
         level="proof",
         rule="wenc: random frames of all 8 kinds (arbitrary UTF-8 names incl. multi-byte, 0-5 headers, operations, payloads) plus payloads at MAX-1/MAX/MAX+1 for 4 frame shapes, encoded by the real MessageCodec and by the Lean model, bytes compared; "
              "wdec: concatenations of 0-5 valid frames under 4 chunkings (whole, 1-byte, header-straddling, random) and malformed streams (truncated, bit-flipped, replaced byte, adversarial inner length, unknown type, random bytes, random body) fed to a real FramedRead<_, MessageCodec> and to the model, item sequences compared; "
@@ -39,7 +39,7 @@ PROPS = {
         trusted_base=COMMON_TRUST + [
             "bincode 1.3 / serde layout as modelled in Wire/Bincode.lean (fixint LE, u64 lengths, u32 variant index, Option tag byte, trailing bytes allowed, slice reader checks length before copying)",
             "tokio_util FramedRead state machine as modelled in Wire/Framed.lean; bytes::BytesMut",
-            "MessageCodec::decode and validate_payload_length (protocol/src/codec.rs) are BOTH modelled by hand (Wire/Frame.lean) and printed from the source by the translator on every run (Gen/CodecFn.lean over the prelude Rs.lean: `&src[..n]`, advance, get_u8, split_to with their panics, from_be_bytes, `?`); Lemmas/CodecGen.lean proves generated = model for every buffer up to error text, Props/C05Gen.lean states round trip, limit, waiting and panic-freedom about the generated decoder; Frame::try_from enters it as a parameter instantiated with the model's tryFrom. If a refactor takes decode() out of the translated subset those theorems are reported as not discharged in that run (no alarm) and the budgets are multiplied", "modelled by hand, not translated: control flow of MessageCodec::encode, Frame::try_from dispatch, utils.rs; regenerated from source: MAX_MESSAGE_SIZE, marker sizes, the 8 tags, get_type/try_from/get_length/write_to_bytes arm tables, every payload struct as a schema",
+            "MessageCodec::decode and validate_payload_length (protocol/src/codec.rs) are BOTH modelled by hand (Wire/Frame.lean) and printed from the source by the translator on every run (Gen/CodecFn.lean over the prelude Rs.lean: `&src[..n]`, advance, get_u8, split_to with their panics, from_be_bytes, `?`); Lemmas/CodecGen.lean proves generated = model for every buffer up to error text, Props/C05Gen.lean states round trip, limit, waiting and panic-freedom about the generated decoder; Frame::try_from enters it as a parameter instantiated with the model's tryFrom. If a refactor takes decode() out of the translated subset those theorems are reported as not discharged in that run (no alarm) and the budgets are multiplied", "decode_message_batch and read_u64 (protocol/src/utils.rs) likewise: Gen/BatchFn.lean (the `for _ in 0..n` loop as a recursive definition), Lemmas/BatchGen.lean, Props/C06Gen.lean", "modelled by hand, not translated: Frame::try_from dispatch, encode_message_batch; regenerated from source: MAX_MESSAGE_SIZE, marker sizes, the 8 tags, get_type/try_from/get_length/write_to_bytes arm tables, every payload struct as a schema",
         ],
         assumptions=[
             "a Rust HashMap of headers is represented by its entries in iteration order (keys unique); equality of decoded frames is equality of those lists, which implies equality of the maps",
@@ -68,7 +68,7 @@ PROPS = {
     "C06": dict(
         module="SeliumModel.Props.C06",
         suites=["wire", "codec", "e2esub"],
-        fn_tie=dict(module="SeliumModel.Props.C05Gen", gen="CodecFn"),
+        fn_tie=[dict(module="SeliumModel.Props.C05Gen", gen="CodecFn"), dict(module="SeliumModel.Props.C06Gen", gen="BatchFn")],
         level="proof",
         rule="e2esub: a library Subscriber (string / bytes / bincode decoder, no compression or gzip / zlib / zstd / lz4 / brotli) fed Message / BatchMessage frames with valid, damaged and random payloads and unexpected frame kinds by a raw publisher through a real server; what it yields (values, error items, end of stream) compared with the Lean subscriber model (decompression results annotated per payload from the library itself); " + "every decoder is run in a child process under a 3 GiB address-space limit (panic and abort both observable) on random, truncated, bit-flipped and adversarial-length inputs: frame streams (wdec), batches (bdec), StringCodec, BytesCodec, BincodeCodec<T> for 9 types, 5 decompressors on damaged and random input; outcome (value / error / panic / abort) compared with the Lean model; distinct = distinct case lines",
         trusted_base=COMMON_TRUST + [
